@@ -1122,6 +1122,96 @@ theorem format_19_20_records_convert (d cc sc : Dict) (tvc tvs : Value)
   unfold chain19
   simp [hd20, hd21]
 
+
+/-- what formats 12 … 17 always stored for a flow that is not a WebSocket flow and whose response (if any) has its timestamps:
+    the hypotheses of `format_12_records_convert` -/
+structure Shape12 (d : Dict) : Prop where
+  marked : ∃ m, dget d (s "marked") = some m
+  response : dget d (s "response") = some .null ∨
+    ∃ r ts, dget d (s "response") = some (.dict r) ∧ dget r (s "timestamp_start") = some ts ∧ ts ≠ .null
+  websocket : dget d (s "websocket") = some .null
+  request : ∃ rq ts, dget d (s "request") = some (.dict rq) ∧ dget rq (s "timestamp_start") = some ts
+  client : ∃ cc, dget d (s "client_conn") = some (.dict cc)
+
+private theorem conv_13_14_simple (d : Dict)
+    (h : dget d (s "response") = some .null ∨
+      ∃ r ts, dget d (s "response") = some (.dict r) ∧ dget r (s "timestamp_start") = some ts ∧ ts ≠ .null) :
+    conv_13_14 d = some (dset (setVersion d 14) (s "comment") (.str [])) := by
+  have e : dget (dset (setVersion d 14) (s "comment") (.str [])) (s "response") = dget d (s "response") := by
+    rw [dget_dset_ne _ _ _ _ (by decide +kernel)]; exact dget_dset_ne _ _ _ _ (by decide +kernel)
+  unfold conv_13_14 conv_13_14F
+  simp only [Option.pure_def, e]
+  rcases h with h | ⟨r, ts, hr, hts, hne⟩
+  · simp [h]
+  · simp only [hr]
+    by_cases hemp : r.isEmpty = true
+    · simp [hemp]
+    · simp only [hemp, if_false, hts]
+      cases ts <;> first | (exact absurd rfl hne) | rfl
+
+/-- **format_12_records_convert.** A format-12 record of that shape runs through 12→13→…→18 without any converter raising.
+    With `format_19_20_records_convert` this leaves 18→19 (the one with the host decode and the connection renames) as the
+    only modelled integer step whose success is not proved under a shape hypothesis. -/
+theorem format_12_records_convert (d : Dict) (h : Shape12 d) : (chain12_18 d).isSome = true := by
+  obtain ⟨⟨m, hm⟩, hresp, hws, ⟨rq, ts, hrq, hts⟩, ⟨cc, hcc⟩⟩ := h
+  -- 12 → 13
+  have s12 : conv_12_13 d = some (dset (setVersion d 13) (s "marked") (.str (if truthy m then s ":default:" else []))) := by
+    have e : dget (setVersion d 13) (s "marked") = some m := by rw [← hm]; exact dget_dset_ne _ _ _ _ (by decide +kernel)
+    unfold conv_12_13; simp [e]
+  generalize hd13 : dset (setVersion d 13) (s "marked") (.str (if truthy m then s ":default:" else [])) = d13 at s12
+  have k13 : ∀ key, (s "version" == key) = false → (s "marked" == key) = false → dget d13 key = dget d key := by
+    intro key a b; rw [← hd13, dget_dset_ne _ _ _ _ b]; exact dget_dset_ne _ _ _ _ a
+  -- 13 → 14
+  have s13 : conv_13_14 d13 = some (dset (setVersion d13 14) (s "comment") (.str [])) := by
+    apply conv_13_14_simple
+    rw [k13 _ (by decide +kernel) (by decide +kernel)]; exact hresp
+  generalize hd14 : dset (setVersion d13 14) (s "comment") (.str []) = d14 at s13
+  have k14 : ∀ key, (s "version" == key) = false → (s "comment" == key) = false → dget d14 key = dget d13 key := by
+    intro key a b; rw [← hd14, dget_dset_ne _ _ _ _ b]; exact dget_dset_ne _ _ _ _ a
+  -- 14 → 15
+  have s14 : conv_14_15 d14 = some (setVersion d14 15) := by
+    have e : dget (setVersion d14 15) (s "websocket") = some .null := by
+      rw [show dget (setVersion d14 15) (s "websocket") = dget d14 (s "websocket") from dget_dset_ne _ _ _ _ (by decide +kernel),
+        k14 _ (by decide +kernel) (by decide +kernel), k13 _ (by decide +kernel) (by decide +kernel)]; exact hws
+    unfold conv_14_15; simp [e]
+  generalize hd15 : setVersion d14 15 = d15 at s14
+  have k15 : ∀ key, (s "version" == key) = false → dget d15 key = dget d14 key := by
+    intro key a; rw [← hd15]; exact dget_dset_ne _ _ _ _ a
+  -- 15 → 16
+  have s15 : conv_15_16 d15 = some (dset (setVersion d15 16) (s "timestamp_created") ts) := by
+    have e : dget (setVersion d15 16) (s "request") = some (.dict rq) := by
+      rw [show dget (setVersion d15 16) (s "request") = dget d15 (s "request") from dget_dset_ne _ _ _ _ (by decide +kernel),
+        k15 _ (by decide +kernel), k14 _ (by decide +kernel) (by decide +kernel), k13 _ (by decide +kernel) (by decide +kernel)]
+      exact hrq
+    unfold conv_15_16; simp [e, asDict, hts]
+  generalize hd16 : dset (setVersion d15 16) (s "timestamp_created") ts = d16 at s15
+  have k16 : ∀ key, (s "version" == key) = false → (s "timestamp_created" == key) = false → dget d16 key = dget d15 key := by
+    intro key a b; rw [← hd16, dget_dset_ne _ _ _ _ b]; exact dget_dset_ne _ _ _ _ a
+  -- 16 → 17 (always succeeds), 17 → 18
+  have s16 : conv_16_17 d16 = some (dpop (setVersion d16 17) (s "mode")) := rfl
+  have ecc : dget (setVersion (dpop (setVersion d16 17) (s "mode")) 18) (s "client_conn") = some (.dict cc) := by
+    rw [show dget (setVersion (dpop (setVersion d16 17) (s "mode")) 18) (s "client_conn")
+        = dget (dpop (setVersion d16 17) (s "mode")) (s "client_conn") from dget_dset_ne _ _ _ _ (by decide +kernel),
+      dget_dpop_ne _ _ _ (by decide +kernel),
+      show dget (setVersion d16 17) (s "client_conn") = dget d16 (s "client_conn") from dget_dset_ne _ _ _ _ (by decide +kernel),
+      k16 _ (by decide +kernel) (by decide +kernel), k15 _ (by decide +kernel), k14 _ (by decide +kernel) (by decide +kernel),
+      k13 _ (by decide +kernel) (by decide +kernel)]
+    exact hcc
+  have s17 : (conv_17_18 (dpop (setVersion d16 17) (s "mode"))).isSome = true := by
+    unfold conv_17_18 dupd; simp [ecc, asDict]
+  unfold chain12_18
+  simp only [Option.bind_eq_bind, s12, Option.bind_some, s13, s14, s15, s16]
+  exact s17
+
+-- non-vacuity: the record of the chain12_18 example has that shape
+example : Shape12 [(.str (s "version"), .int 12), (.str (s "marked"), .bool true),
+    (.str (s "request"), .dict [(.str (s "path"), .bytes (s "/x")), (.str (s "timestamp_start"), .int 5)]),
+    (.str (s "response"), .null), (.str (s "client_conn"), .dict [(.str (s "timestamp_start"), .int 5)]),
+    (.str (s "websocket"), .null), (.str (s "mode"), .str (s "regular"))] := by
+  refine ⟨⟨.bool true, ?_⟩, Or.inl ?_, ?_, ⟨[(.str (s "path"), .bytes (s "/x")), (.str (s "timestamp_start"), .int 5)], .int 5, ?_, ?_⟩,
+    ⟨[(.str (s "timestamp_start"), .int 5)], ?_⟩⟩ <;>
+  repeat (first | rw [dget_cons_same] | rw [dget_cons_ne _ _ _ _ (by decide +kernel)])
+
 /-! #### the whole modelled chain 12 → 21 -/
 
 def chain12_21 (d : Dict) : Option Dict := chain12_18 d >>= conv_18_19 >>= chain19
